@@ -213,8 +213,10 @@ where
         //
         let counter = HashMap::<u64, u64>::new();
         //
-        let mut rng = ThreadRng::default();
-        let seed = rng.next_u64();
+        let rng = ThreadRng::default();
+        // fixed default seed (as for the wyhash seed of the store) : two sketchers built with the same
+        // parameters must give the same signature. Use change_rng_seed to get another one.
+        let seed: u64 = 0x9e37_79b9_7f4a_7c15;
         //
         ProbOrdMinHash2 {
             m,
